@@ -102,6 +102,7 @@ class Kernel:
         self.log: List[tuple] = []    # optional (step, task, op, obj)
         self.keep_log = False
         self.stalled_steps = 0
+        self.fault_hook = None        # callable(task, op, obj) run inside the task after each sync operation
 
     # -- called from any thread -------------------------------------------------------------
     def current(self) -> Optional[Task]:
